@@ -990,7 +990,7 @@ def c08_search(rng, n, adaptive_share=0.0):
 # C10: reversible-Heun adjoint vs backprop on the real sdeint / sdeint_adjoint
 # ---------------------------------------------------------------------------------------------------------------
 
-def c10_case(noise, d, m, batch, seed, dt, ks, t0=0.0, weights='dense'):
+def c10_case(noise, d, m, batch, seed, dt, ks, t0=0.0, weights='dense', extras='none'):
     sde = RandSDE(noise, 'stratonovich', d, m, seed)
     g0 = torch.Generator().manual_seed(seed)
     ts = [t0 + k * dt for k in ks]
@@ -1015,13 +1015,28 @@ def c10_case(noise, d, m, batch, seed, dt, ks, t0=0.0, weights='dense'):
         y0 = (0.3 * torch.randn(batch, d, generator=torch.Generator().manual_seed(seed + 1), dtype=torch.float64)).requires_grad_(True)
         bm = RecordingBM(make_bm(p, ts[0], ts[-1]))
         with core.time_limit(300):
+            ex = dict(extra=True) if extras != 'none' else {}
             if adjoint:
-                ys = torchsde.sdeint_adjoint(sde, y0, ts, bm=bm, method='reversible_heun', adjoint_method='adjoint_reversible_heun',
-                                             dt=dt, adjoint_params=params)
+                out = torchsde.sdeint_adjoint(sde, y0, ts, bm=bm, method='reversible_heun', adjoint_method='adjoint_reversible_heun',
+                                              dt=dt, adjoint_params=params, **ex)
             else:
-                ys = torchsde.sdeint(sde, y0, ts, bm=bm, method='reversible_heun', dt=dt)
+                out = torchsde.sdeint(sde, y0, ts, bm=bm, method='reversible_heun', dt=dt, **ex)
             n_fwd = len(bm.log)
-            grads = torch.autograd.grad((w * ys).sum(), [y0] + params, allow_unused=True)
+            loss = 0.0
+            if extras != 'none':
+                # the documented `extra=True`: the final solver state (f, g, z) is returned too and the loss may use any part of it
+                ys, (fT, gT, zT) = out
+                if extras == 'z':
+                    loss = 0.7 * zT.sum()
+                elif extras == 'yz':
+                    loss = ((ys[-1] - zT) ** 2).sum()
+                elif extras == 'fz':
+                    loss = (fT * zT).sum()
+                else:
+                    loss = 0.3 * fT.sum() + 0.2 * (gT ** 2).sum() + 0.5 * zT.sum()
+            else:
+                ys = out
+            grads = torch.autograd.grad((w * ys).sum() + loss, [y0] + params, allow_unused=True)
         if adjoint:
             slivers = sum(1 for a, b in bm.log[n_fwd:] if abs(b - a) < 1e-6 * dt)
         res.append([torch.zeros_like(x) if g is None else g for g, x in zip(grads, [y0] + params)])
@@ -1037,7 +1052,7 @@ def c10_search(rng, n):
         ks = [0] + sorted(rng.sample(range(1, 14), rng.randrange(1, 5)))
         cfg = dict(noise=rng.choice(NOISE), d=rng.choice([1, 2, 3]), m=rng.choice([1, 2, 3]), batch=rng.choice([1, 2]),
                    seed=rng.randrange(10 ** 6), dt=dt, ks=ks, t0=rng.choice([0.0, 0.0, 0.5, -0.25]) if dyadic else 0.0,
-                   weights=rng.choice(['dense', 'sparse', 'cancel']))
+                   weights=rng.choice(['dense', 'sparse', 'cancel']), extras=rng.choice(['none', 'none', 'z', 'yz', 'fz', 'all']))
         try:
             rel, slivers = c10_case(**cfg)
             # dyadic dt: the step grid is exact in floats, the two gradients agree to ~1e-15; other dt: the accumulated grid and the
@@ -1163,6 +1178,25 @@ def c09_gradient_errors(sde_type, noise, method, adjoint_method, seed, paths=64,
     return errs
 
 
+def c09_general_case(seed, k=9, batch=48, T=0.5):
+    """Ito SDE with GENERAL noise, d = m = 2, diffusion columns coupled through the state (tanh of a dense linear map): the adjoint
+    gradient (euler / euler) against backprop through sdeint on the same Brownian path at dt = 2^-k; both discretise the same
+    gradient, so they agree up to O(sqrt(dt)); a wrong adjoint drift leaves an O(1) difference"""
+    sde = RandSDE('general', 'ito', 2, 2, seed, scale=0.8)
+    g0 = torch.Generator().manual_seed(seed)
+    y0 = 0.5 * torch.randn(batch, 2, generator=g0, dtype=torch.float64)
+    params = list(sde.parameters())
+    res = []
+    for adjoint in (False, True):
+        y = y0.clone().requires_grad_(True)
+        bm = BrownianInterval(t0=0.0, t1=T, size=(batch, 2), dtype=torch.float64, entropy=seed)
+        fn = torchsde.sdeint_adjoint if adjoint else torchsde.sdeint
+        ys = fn(sde, y, [0.0, T], bm=bm, method='euler', dt=2.0 ** -k)
+        grads = torch.autograd.grad((ys[-1] ** 2).sum(), [y] + params, allow_unused=True)
+        res.append([torch.zeros_like(x) if g is None else g for g, x in zip(grads, [y] + params)])
+    return max(float((a - b).abs().max()) / (1e-3 + float(b.abs().max())) for a, b in zip(*res) if float(b.abs().max()) > 1e-6)
+
+
 def c09_search(rng, n):
     fails, st = [], dict(evals=0, forward_equal=0, convergence=0, requested_only=0, worst_final_err=0.0)
     for _ in range(n):
@@ -1222,6 +1256,22 @@ def c09_search(rng, n):
         except Exception as e:  # noqa
             fails.append(dict(kind='c09-convergence', sde_type=sde_type, noise=noise, method=method, adjoint_method=am, seed=seed,
                               weights=wname, why=f"{type(e).__name__}: {e}"))
+        if len(fails) >= 2:
+            return fails, st
+    # general noise with coupled diffusion columns (d = m = 2, Ito): adjoint vs backprop on the same path
+    for _ in range(2 if n < 200 else 12):
+        seed = rng.randrange(10 ** 6)
+        try:
+            rel = c09_general_case(seed)
+            st['general_noise'] = st.get('general_noise', 0) + 1
+            st['evals'] += 1
+            st['worst_general'] = max(st.get('worst_general', 0.0), rel)
+            # unchanged tree over 36 seeds: <= 0.075; an adjoint drift with spurious cross terms between columns: >= 0.27
+            if not (rel < 0.2):
+                fails.append(dict(kind='c09-general-noise', seed=seed,
+                                  why=f"Ito general noise (d=m=2, coupled columns), euler/euler, dt=2^-9: adjoint and backprop gradients differ by {rel:.3f} (relative)"))
+        except Exception as e:  # noqa
+            fails.append(dict(kind='c09-general-noise', seed=seed, why=f"{type(e).__name__}: {e}"))
         if len(fails) >= 2:
             return fails, st
     # only the tensors asked for receive gradients
